@@ -86,4 +86,20 @@ PROPS = {
         parts=[part("delay", "internal/corerad", "TestVerifC05", shards={"quick": 4, "thorough": 16}),
                part("loop", "internal/corerad", "TestVerifC05Loop")],
     ),
+    "C19": dict(
+        level="model_checking", engine="sched",
+        technique="stateless delay-bounded exploration of all interleavings of Subscribe/notify/end-of-watch on the instrumented real Watcher; exhaustive mask x change enumeration; separate free-running -race pass",
+        text="Part 'enum': all 127 masks x 7 changes x interface names, all change sequences <=3, 0..12 undrained events, close-on-end incl. a failing watch. Part 'sched': the real Watcher (AST-instrumented: every lock, channel and atomic operation is a scheduling point) with a watch thread issuing notifications, two subscribers and a canceller, every interleaving with at most 2 (quick) / 4 (thorough) deviations from the canonical schedule checked for panics, delivery, order, closure and non-blocking. Part 'race': the same bodies free-running under the race detector.",
+        note="RWMutex modelled as exclusive (reader/reader overlap not explored). The rtnetlink receive loop (osWatch) is covered only through process()/operStateChange.",
+        parts=[part("enum", "internal/netstate", "TestVerifC19"),
+               part("sched", "internal/netstate", "TestVerifC19Sched", mode="sched", gomaxprocs=2, shards={"quick": 4, "thorough": 16}),
+               part("race", "internal/netstate", "TestVerifC19Race", mode="sched", race=True)],
+    ),
+    "C06": dict(
+        level="model_checking", engine="seq",
+        technique="bounded-exhaustive enumeration of trigger arrival histories on a time grid around the 3 s boundary, each executed on the instrumented real Advertiser under a virtual clock; invariant checked on the WriteTo timestamps of every execution",
+        text="All histories of up to K solicitations (from :: or unicast) with gaps from an 8-point grid around MIN_DELAY_BETWEEN_RAS are injected into the real advertiser, whose own periodic ticks interleave; in every execution all multicast transmissions must be >=3 s apart and every trigger must be served within 3 s. Complete for K<=3 (quick) / K<=4 (thorough) on the grid.",
+        note="One (canonical) goroutine schedule per history; gaps outside the grid and histories longer than K are not covered; the final zero-lifetime RA is exempt as the statement says.",
+        parts=[part("histories", "internal/corerad", "TestVerifC06", mode="sched", gomaxprocs=2, shards={"quick": 8, "thorough": 16})],
+    ),
 }
